@@ -21,7 +21,7 @@ RULE = (
     "ball/cartesian/euclidean, kd/cartesian/minkowski, kd/cartesian/chebyshev, kd/cartesian/manhattan, kd/spherical/minkowski} x a 10x10 lon/lat query lattice (poles, "
     "lon=+-180, 0) plus the element positions themselves, as one batch, as single points, in degrees and radians x every k in 1..n x radii {0, half the minimum "
     "inter-element distance, median, pi/2, 3.0 rad}; (b) every sequence of <= d requests over 28 parameterisations (2 trees x 3 kinds x {spherical, cartesian, cartesian+"
-    "other metric} + reconstruct variants) followed by a k=1..3 query. non-trivial = query whose k nearest elements lie on both sides of the antimeridian, or "
+    "other metric} + reconstruct variants) followed by k in {1, 3, n} queries. Every kNN query is issued as (distances+indices), indices only, breadth-first and dual-tree;  non-trivial = query whose k nearest elements lie on both sides of the antimeridian, or "
     "request sequences that change system/metric; distinct = (grid, kind, tree, query form, k)"
 )
 ASSUMPTIONS = [
@@ -32,7 +32,7 @@ ASSUMPTIONS = [
     "radius queries: ball/spherical in degrees with in_radians=False, kd/spherical in radians with in_radians=True (the only unambiguous readings); radii within 1e-7 of an element distance are nudged",
 ]
 BOUNDS = {
-    "quick": "(a) 3 grids; (b) d=2 on 1 grid",
+    "quick": "(a) 3 grids; (b) d=2 over all 28 requests and d=3 over the 12 plain requests of 4 trees, on 1 grid",
     "thorough": "(a) 6 grids; (b) d=3 on 1 grid, d=2 on 2 more",
 }
 KINDS = ["nodes", "edge centers", "face centers"]
@@ -157,6 +157,30 @@ def _check_knn_once(t, tree, kind, qlon, qlat, D, k, radians, single, bad, info,
         bad("c11:knn-order", "%s k=%d: distances not nearest-first" % (info, k))
     if any(len(set(r.tolist())) != k for r in i2):
         bad("c11:knn-duplicates", "%s k=%d: an element is returned twice" % (info, k))
+    # the other documented call forms answer the same question: indices only (still nearest first), breadth-first and dual-tree traversal
+    q = coords[0] if single else coords
+    for vname, kw in (("return_distance=False", {"return_distance": False}), ("breadth_first=True", {"breadth_first": True}), ("dualtree=True", {"dualtree": True})):
+        if vname != "return_distance=False" and k not in (1, 2, D.shape[1]):
+            continue  # traversal variants: smallest and largest k only
+        try:
+            r = t.query(q, k=k, in_radians=radians, **kw) if system == "spherical" else t.query(q, k=k, **kw)
+        except Exception as e:
+            bad("c11:query-raises:%s:%s" % (vname.split("=")[0], type(e).__name__), "%s query(k=%d, %s) raised %r" % (info, k, vname, e))
+            return None
+        iv = np.asarray(r if vname == "return_distance=False" else r[1])
+        try:
+            iv = iv.reshape(nq, k).astype(int)
+        except Exception:
+            bad("c11:shape:%s" % vname.split("=")[0], "%s k=%d %s: index shape %s for %d queries" % (info, k, vname, np.asarray(iv).shape, nq))
+            return None
+        if iv.min() < 0 or iv.max() >= D.shape[1]:
+            bad("c11:knn-index-range", "%s k=%d %s: index out of range" % (info, k, vname))
+            return None
+        ownv = np.take_along_axis(Dq, iv, axis=1)
+        if not np.all(np.abs(ownv - want) <= tol):
+            qq = int(np.argwhere(~(np.abs(ownv - want) <= tol))[0][0])
+            bad("c11:knn-%s:%s-%s-%s" % ((vname.split("=")[0],) + tree), "%s k=%d %s, query (lon %.2f, lat %.2f): returned indices %s are at distances %s, brute force nearest-first %s" % (info, k, vname, qlon[qq], qlat[qq], iv[qq].tolist(), ownv[qq].tolist(), want[qq].tolist()))
+            return None
     return i2
 
 
@@ -270,7 +294,8 @@ def run_history_block(case, res):
     qlat = np.array([-3.0, 12.0, 88.0, 9.0])
     Dcache = {}
     last = None
-    for rest in itertools.product(range(len(reqs)), repeat=depth - 1):
+    alphabet = case.get("alphabet") or list(range(len(reqs)))
+    for rest in itertools.product(alphabet, repeat=depth - 1):
         seq = (first,) + rest
         if "only" in case and list(seq) != case["only"]:
             continue
@@ -306,7 +331,7 @@ def run_history_block(case, res):
             V.append({"oracle": "history", "sig": sig.replace("c11:", "c11:history:", 1), "msg": "grid %s after requests %s: the tree handed back does not answer for the last request: %s" % (case["mesh"], [reqs[i] for i in seq], msg), "focus": dict(case, only=list(seq))})
 
         n = D.shape[1]
-        for k in sorted({1, min(3, n)}):
+        for k in sorted({1, min(3, n), n}):  # k = n: every element of the kind requested last (the admissible k range follows the request too)
             _check_knn(t, tree, kind, qlon, qlat, D, k, False, False, bad, "last=%s/%s/%s %s" % (tree + (kind,)))
         last = seq
         res["outcomes"].append(digest((seq[-1],)))
@@ -327,6 +352,12 @@ def cases(tier):
     for mesh, d in hl:
         for first in range(nreq):
             out.append({"kind_": "history", "mesh": mesh, "depth": d, "first": first})
+    if tier == "quick":
+        # depth 3 over the 12 plain requests of the two default trees + their cartesian variants (A, B, A patterns: return to a tree built earlier)
+        R = _requests()
+        sub = [i for i, r in enumerate(R) if not r[4] and (r[0], r[1], r[2]) in (TREES[0], TREES[1], TREES[2], TREES[5])]
+        for first in sub:
+            out.append({"kind_": "history", "mesh": "amstrip", "depth": 3, "first": first, "alphabet": sub})
     return out
 
 
